@@ -651,13 +651,13 @@ func replayOne(v *violation, prop string, h HarnessPlan, params map[string]int, 
 		v.Reproduced = true
 		return
 	}
-	// a native run that passes is repeated (twice, or seven times when it takes under 10 s): where the failure depends on the native
+	// a native run that passes is repeated (once, or seven times when it takes under 10 s): where the failure depends on the native
 	// scheduler (goroutines of the code under test) one passing run proves little, and only a
 	// run that actually fails is ever reported
 	var out []byte
 	var err error
 	var txt string
-	attempts := 3
+	attempts := 2
 	for attempt := 0; attempt < attempts; attempt++ {
 		t0 := time.Now()
 		cmd := exec.Command("/bin/sh", filepath.Join(dir, "run.sh"))
